@@ -27,7 +27,7 @@ class Inst:
                  tier='quick', pre='', loop_contracts=None, nondet_volatile=False, solvers=('minisat',),
                  timeout=120, unwind=None, extra_cbmc=(), also_enforce=(), note='', kind='proof',
                  replay=None, expect_compile_error=False, opts=None, defines=(), root_pick=None,
-                 canary=True, object_bits=None, globals_init=None, extra_replace=(), pre_defines='', ret='void', may_not_compile=False, facts=None, post_protos=''):
+                 canary=True, object_bits=None, globals_init=None, extra_replace=(), pre_defines='', ret='void', may_not_compile=False, facts=None, post_protos='', extra_fns=None):
         self.name = name
         self.params = params          # C++ parameter list of the snippet
         self.expr = expr              # C++ statement(s) using the operation under contract
@@ -45,6 +45,7 @@ class Inst:
         self.unwind = unwind
         self.extra_cbmc = extra_cbmc
         self.also_enforce = also_enforce
+        self.extra_fns = extra_fns      # {key: picker(tu) -> function}: emitted besides the root, named $FN(key) in the harness
         self.note = note
         self.kind = kind              # 'proof' | 'bounded'
         self.replay = replay          # dict describing native replay, optional
@@ -117,7 +118,8 @@ LEAVES = {
         '__CPROVER_requires(__CPROVER_r_ok($this, sizeof(*$this)))\n__CPROVER_requires(g_expect_malloc_size == 0 || MI($0) == MI(g_expect_malloc_size))\n__CPROVER_assigns()'),
     # the process-wide finder is only ever handed to the backend (never called by the core directly)
     'find_sandbox_from_example': (_is('find_sandbox_from_example'),
-        '__CPROVER_assigns()'),
+        # result: some live sandbox of this backend type or null - nothing more is promised here (C04 proves the finder)
+        '__CPROVER_requires(1)\n__CPROVER_ensures(1)\n__CPROVER_assigns()'),
 }
 
 
@@ -317,7 +319,9 @@ class Unit:
         opts['per_site_leaves'] = ('dynamic_check',)
         opts.update(it.opts)
         em = Emitter(tu, leaf_pred=leaf_pred, std_models=MODELS, opts=opts)
-        order = em.emit_all([root])
+        # further functions of the real code that the harness itself calls (set-up through the public API): $FN(key)
+        extra = [(k, pick(tu)) for k, pick in (it.extra_fns or {}).items()]
+        order = em.emit_all([root] + [f for _, f in extra])
         rootc = em.fname(root)
         out = []
         out.append('/* generated by /verif from the instantiated clang AST of /repo/code/include; instance %s */' % it.name)
@@ -397,6 +401,8 @@ class Unit:
                 raise ExtractError('$G(%s): %d matching globals' % (m.group(1), len(cands)))
             return cands[0]
         text = re.sub(r'\$G\(([A-Za-z0-9_]+)\)', gsub, text)
+        for k, f in extra:
+            text = text.replace('$FN(%s)' % k, em.fname(f))
 
         def ftable(m):
             # $FTABLE(name): C names of the instantiations of function template <name> reachable from the root,
@@ -415,6 +421,15 @@ class Unit:
                 raise ExtractError('$FTABLE(%s): instantiations are not 0..n-1' % m.group(1))
             return ', '.join('(void *)%s' % r[1] for r in rows)
         text = re.sub(r'\$FTABLE\(([A-Za-z0-9_]+)\)', ftable, text)
+        # libc byte operations the unit gives no contract stub for: cbmc's own byte-level implementations (object view), so that
+        # code which merely starts using memcpy/memset/memcmp is verified through them instead of tripping over an undefined callee
+        defaults = {'vstd_memcpy': 'void *memcpy(void *, const void *, unsigned long);\nvoid *vstd_memcpy(void *d, const void *s, unsigned long n) { return memcpy(d, s, n); }\n',
+                    'vstd_memset': 'void *memset(void *, int, unsigned long);\nvoid *vstd_memset(void *d, int c, unsigned long n) { return memset(d, c, n); }\n',
+                    'vstd_memcmp': 'int memcmp(const void *, const void *, unsigned long);\nint vstd_memcmp(const void *a, const void *b, unsigned long n) { return memcmp(a, b, n); }\n'}
+        for fn_, body_ in defaults.items():
+            if re.search(r'\b%s\(' % fn_, text) and not re.search(r'^[A-Za-z_][A-Za-z0-9_ \*]*\b%s\(' % fn_, text, re.M):
+                text = text.replace('#include "backend_spec.h"', '#include "backend_spec.h"\n' + body_, 1)
+                em.lowerings['M-mem(%s -> cbmc byte operation, object view)' % fn_] += 1
         cfile = os.path.join(self.dir, it.name + '.c')
         open(cfile, 'w').write(text)
         # contract stubs that the extracted code does not call cannot be named to --replace-call-with-contract
